@@ -20,6 +20,9 @@
 #include "icinga/timeperiod.hpp"
 #include "icinga/icingaapplication.hpp"
 #include "checker/checkercomponent.hpp"
+#include "remote/endpoint.hpp"
+#include "remote/zone.hpp"
+#include "remote/jsonrpcconnection.hpp"
 #include <atomic>
 #include <thread>
 #include <mutex>
@@ -87,6 +90,7 @@ int IndexOf(const Checkable *c)
 // thread-local context: a lower bound for the clock value the next UpdateNextCheck() on this thread samples
 struct Ctx { const Checkable *ck = nullptr; long t0 = 0; int pcr = 0; bool have = false; long t1 = 0, next = 0; };
 thread_local Ctx tl_Ctx;
+thread_local bool tl_Requesting = false;   // this thread is inside its own SetForceNextCheck(true): the signal it emits is not a clear
 std::atomic<int> l_NextTid{1};
 thread_local int tl_Tid = 0;
 int Tid() { if (!tl_Tid) tl_Tid = l_NextTid.fetch_add(1); return tl_Tid; }
@@ -98,6 +102,7 @@ Host::Ptr l_PcrHost;
 long l_PcrNo = 0;
 long l_DefStarted = 0;
 CheckResult::Ptr l_DefCr;
+int l_PcrRemote = 0;     // 0 local; 1 command_endpoint set, endpoint not connected; 2 command_endpoint set, endpoint connected
 
 // ------------------------------------------------------------------ asynchronous executions
 // A native stand-in for PluginCheckTask: ScriptFunc spawns the "process", counts the slot (IncreasePendingChecks) and returns;
@@ -286,6 +291,9 @@ void InitOnce()
 	// force_next_check consumed (set to false): in the code as modelled this PRECEDES the ExecuteCheck it belongs to
 	Checkable::OnForceNextCheckChanged.connect([](const Checkable::Ptr& c, const Value&) {
 		if (!l_Running.load()) return;
+		// the signal does not carry the value.  The requester's own emission is skipped by thread (reading the flag there would
+		// race with the scheduler consuming it at once and count that clear twice); nobody else sets the flag to true
+		if (tl_Requesting) return;
 		if (c->GetForceNextCheck()) return;
 		int id = IndexOf(c.get());
 		if (id < 0) return;
@@ -432,6 +440,11 @@ static void PcrCleanup()
 	if (!l_PcrHost) return;
 	Host::Ptr h = l_PcrHost;
 	l_PcrCk = nullptr; l_PcrHost = nullptr; l_DefCr = nullptr; l_DefStarted = 0;
+	if (l_PcrRemote) {
+		Endpoint::Ptr ep = Endpoint::GetByName("schpeer");
+		if (ep) { std::unique_lock<std::mutex> lock(ep->m_ClientsLock); ep->m_Clients.clear(); }
+		l_PcrRemote = 0;
+	}
 	for (const Service::Ptr& sv : h->GetServices()) CkRemoveObject(sv);
 	CkRemoveObject(h);
 }
@@ -444,9 +457,17 @@ VOP(sch_cnew)
 	std::string hn = "schp" + std::to_string(++l_PcrNo);
 	bool svc = a.str("kind", "host") == "svc";
 	std::ostringstream c;
+	int remote = a.num("remote", 0);
+	if (remote) {
+		// command_endpoint branch of ExecuteCheck: an endpoint that is not the local one (there is no ApiListener: no local endpoint)
+		static bool peer = false;
+		if (!peer) { peer = true; LoadConfig("object Endpoint \"schpeer\" { }\nobject Zone \"schzone\" { endpoints = [ \"schpeer\" ] }\n"); }
+	}
 	auto attrs = [&](bool subject) {
 		std::ostringstream o;
 		o << "  check_command = \"schcmd\"\n  enable_active_checks = false\n  enable_flapping = false\n";
+		if (remote) o << "  zone = \"schzone\"\n";
+		if (remote && subject) o << "  command_endpoint = \"schpeer\"\n";
 		if (subject)
 			o << "  max_check_attempts = " << a.num("max", 3) << "\n  check_interval = " << (a.num("ci4", 20) / 4.0)
 			  << "\n  retry_interval = " << (a.num("ri4", 4) / 4.0) << "\n";
@@ -459,6 +480,13 @@ VOP(sch_cnew)
 	if (svc) l_PcrCk = Service::GetByNamePair(hn, "s"); else l_PcrCk = l_PcrHost;
 	if (!l_PcrCk) throw std::runtime_error("sch: subject not created");
 	l_PcrCk->SetSchedulingOffset(a.num("off"));
+	l_PcrRemote = remote ? (a.num("conn", 0) ? 2 : 1) : 0;
+	if (l_PcrRemote == 2) {
+		Endpoint::Ptr ep = Endpoint::GetByName("schpeer");
+		if (!ep) throw std::runtime_error("sch: no peer endpoint");
+		std::unique_lock<std::mutex> lock(ep->m_ClientsLock);
+		ep->m_Clients.insert(nullptr);   // GetConnected() = there is a client; nothing is sent (no ApiListener instance)
+	}
 }
 
 VOP(sch_cr)
@@ -508,6 +536,20 @@ VOP(sch_exec)
 	l_RaceState = a.has("race") ? (int)a.num("race") : -1;
 	l_PcrCk->ExecuteCheck();
 	l_RaceState = -1;
+	if (l_PcrRemote) {
+		// remote: the local node executes nothing; what is visible afterwards is next_check (connected: now + timeout + 30) or
+		// the UNKNOWN result "not connected" (execution_start = now); ExecuteCheck has released m_CheckRunning on return
+		double now = a.dbl("now");
+		std::ostringstream o;
+		o << "exec remote conn=" << (l_PcrRemote == 2 ? 1 : 0);
+		if (l_PcrRemote == 1) {
+			CheckResult::Ptr cr = l_PcrCk->GetLastCheckResult();
+			o << " got=" << ((cr && cr->GetExecutionStart() == now) ? 1 : 0) << " ty=" << (long)l_PcrCk->GetStateType();
+		}
+		o << " next=" << std::llround((l_PcrCk->GetNextCheck() - now) * 10000.0);
+		Out(o.str());
+		return;
+	}
 	Out(std::string("exec started=") + (l_DefStarted > before ? "1" : "0"));
 }
 
@@ -737,7 +779,7 @@ VOP(sch_run)
 				long tf = NowUs();   // BEFORE the request: the forced check may start before SetNextCheck() returns
 				for (auto& fr : forced) if (fr.c == c && fr.until < 0) fr.until = tf;   // a new request re-keys c (next_check = now): it supersedes the older one
 				Record({'R', tf, c, 0});
-				touch(c, [&](CkInfo& k) { k.obj->SetForceNextCheck(true); k.obj->SetNextCheck(Utility::GetTime()); });
+				touch(c, [&](CkInfo& k) { tl_Requesting = true; k.obj->SetForceNextCheck(true); tl_Requesting = false; k.obj->SetNextCheck(Utility::GetTime()); });
 				Record({'R', NowUs(), c, 1});
 				if (!ci.paused) forced.push_back({c, tf, -1, NowUs()});
 			} else if (op < 70) {    // enable_active_checks
@@ -1063,7 +1105,7 @@ VOP(sch_tl_do)
 	if (c < 0 || c >= l_Tl.n) throw std::runtime_error("sch_tl_do: no such checkable");
 	CkInfo& k = *l_Cks[c];
 	std::string op = a.str("op");
-	if (op == "force") { k.obj->SetForceNextCheck(true); k.obj->SetNextCheck(Utility::GetTime()); }
+	if (op == "force") { tl_Requesting = true; k.obj->SetForceNextCheck(true); tl_Requesting = false; k.obj->SetNextCheck(Utility::GetTime()); }
 	else if (op == "enable") { k.enabled = true; k.obj->SetEnableActiveChecks(true); }
 	else if (op == "disable") { k.enabled = false; k.obj->SetEnableActiveChecks(false); }
 	else if (op == "close") { k.inperiod = false; k.obj->SetCheckPeriodRaw("sch_never"); }
